@@ -5,6 +5,7 @@ import (
 	"flag"
 	"fmt"
 	"os"
+	"os/exec"
 	"path/filepath"
 	"runtime"
 	"sort"
@@ -194,6 +195,9 @@ func cmdCheck(args []string) int {
 		}
 	}
 	run := runProperty(w, lib, p, id, tier)
+	if tier == "thorough" && repoDir == "/repo" && !*update {
+		run.selftest = runSelftest(id)
+	}
 	return run.report(id, tier, seed, start, *update)
 }
 
@@ -212,6 +216,7 @@ type propRun struct {
 	notes       []string
 	assumedSites []string
 	witnesses    []map[string]any
+	selftest     map[string]any
 	unclaimed    int
 }
 
@@ -558,7 +563,7 @@ func (run *propRun) writeEvidence(id, tier string, seed int, start time.Time, to
 		"functions_under_contract": fns, "samples": samples,
 		"distinct_obligation_keys": len(run.aggs) + len(run.ownObs),
 		"known_findings_seen":      known, "unsupported": run.unsupported, "bounded": run.bounded, "notes": append(run.notes, run.w.Notes...),
-		"assumed_obligations": run.assumedSites, "witness_replays": run.witnesses,
+		"assumed_obligations": run.assumedSites, "witness_replays": run.witnesses, "mutation_selftest": run.selftest,
 		"spec_axioms_used": len(axioms), "lemmas_proved_and_used": keysOf(run.lemmasUsed),
 	}
 	cov["explanation"] = expl
@@ -607,4 +612,36 @@ func manifestLevel(id string) string {
 		}
 	}
 	return "other"
+}
+
+// runSelftest (thorough tier only): applies the property's must-fail patches (selftest/mutants, including the reverse of
+// every fix) and must-pass patches (selftest/harmless) to a scratch copy of /repo and runs the quick check against it.
+// The outcome is reported in the evidence; it never changes the verdict about the unchanged tree.
+func runSelftest(id string) map[string]any {
+	cmd := exec.Command(filepath.Join(verifDir, "selftest", "run.sh"), id)
+	cmd.Env = append(os.Environ(), "GOFLAGS=-mod=mod", "GOPROXY=off")
+	out, _ := cmd.CombinedOutput()
+	res := map[string]any{}
+	var caught, missed, quiet, alarms []string
+	for _, l := range strings.Split(string(out), "\n") {
+		f := strings.Fields(l)
+		switch {
+		case strings.HasPrefix(l, "ok   caught") && len(f) >= 3:
+			caught = append(caught, f[2])
+		case strings.HasPrefix(l, "MISS") && len(f) >= 2:
+			missed = append(missed, f[1])
+		case strings.HasPrefix(l, "ok   quiet") && len(f) >= 3:
+			quiet = append(quiet, f[2])
+		case strings.HasPrefix(l, "FALSE-ALARM") && len(f) >= 2:
+			alarms = append(alarms, f[1])
+		}
+	}
+	res["must_fail_caught"], res["must_fail_missed"], res["must_pass_quiet"], res["must_pass_alarms"] = caught, missed, quiet, alarms
+	for _, m := range missed {
+		fmt.Printf("SELFTEST-MISS: property=%s %s (a change that should break the property was not reported)\n", id, m)
+	}
+	for _, m := range alarms {
+		fmt.Printf("SELFTEST-FALSE-ALARM: property=%s %s (a behaviour-preserving edit was reported)\n", id, m)
+	}
+	return res
 }
